@@ -16,8 +16,15 @@
                                     (rebuild_indexes iff the delta is not empty), grow_wal_region
                                     (rewrites the TOC), vacuum
      src/memvid/lifecycle.rs        open: vec_enabled = manifest present; load the index
-     src/memvid/doctor.rs           apply_pending_rebuilds (vec: enabled := true, manifest and
-                                    index dropped, then rebuild_indexes(&[], &[]))
+     src/memvid/doctor.rs           apply_pending_rebuilds (vec: enabled := true, the index is loaded
+                                    and KEPT, the manifest dropped, then rebuild_indexes(&[], &[]))
+   Repairs in /repo this model follows: 564c799 (an empty vector is no embedding), 83a83e8 (doctor's
+   vector rebuild keeps the index), 8099cac (commit_from_records enables vec when the applied
+   records carry embeddings; recover_wal now goes through commit_from_records).  The behaviour
+   before 83a83e8 / 8099cac is kept as vcommit_unfixed / doctor_vec_unfixed for the record.
+   Boundary: the index on file always decodes in this model (vdisk holds the documents); an
+   index whose bytes no longer decode makes ensure_vec_index fail and the next rebuild write an
+   empty index -- that is file damage (C20 / C21), not reachable here.
    An embedding is the list of the bit patterns of its f32 components. *)
 From MV Require Import Base.Prelude Model.Store.
 Local Open Scope N_scope.
@@ -102,9 +109,19 @@ Definition rebuild_indexes (v : vst) (frames : list frame) (idx : option docs) (
   | None => mkV (venabled v) None None (pemb v)
   end.
 
-(* commit_from_records / recover_wal over the pending records `recs` of a memory whose
-   committed table is `frames` *)
+Definition is_nil {A} (l : list A) : bool := match l with [] => true | _ => false end.
+
+(* commit_from_records (recover_wal calls it too) over the pending records `recs` of a memory
+   whose committed table is `frames` *)
 Definition vcommit (frames : list frame) (recs : list (N * entry)) (v : vst) : vst :=
+  let '(_, idx, newd) := fold_left vapply_entry (combine recs (pemb v)) ((frames, [], []), mem_index v, []) in
+  (* if !delta.inserted_embeddings.is_empty() && !self.vec_enabled { self.enable_vec()? } *)
+  let v0 := if negb (is_nil newd) && negb (venabled v) then enable_vec v else v in
+  let v1 := if delta_nonempty recs then rebuild_indexes v0 (apply_records frames recs) idx newd else v0 in
+  mkV (venabled v1) (vmem v1) (vmem v1) [].
+
+(* before 8099cac: no enable_vec after apply_records *)
+Definition vcommit_unfixed (frames : list frame) (recs : list (N * entry)) (v : vst) : vst :=
   let '(_, idx, newd) := fold_left vapply_entry (combine recs (pemb v)) ((frames, [], []), mem_index v, []) in
   let v1 := if delta_nonempty recs then rebuild_indexes v (apply_records frames recs) idx newd else v in
   mkV (venabled v1) (vmem v1) (vmem v1) [].
@@ -130,6 +147,8 @@ Definition info_vacuum (i : vinfo) : bool := match i with VVacuum => true | _ =>
 Definition info_bits (i : vinfo) : N := match i with VDoctor b => b | _ => 0 end.
 
 Definition nonempty (e : emb) : bool := match e with [] => false | _ => true end.
+(* put_internal: embedding.filter(|vector| !vector.is_empty()), same for each chunk embedding *)
+Definition norm (oe : option emb) : option emb := match oe with Some e => if nonempty e then Some e else None | None => None end.
 (* put_internal's incoming_dimension is Some(_) *)
 Definition incoming_dimension (parent : option emb) (chunks : option (list emb)) : bool :=
   (match parent with Some e => nonempty e | None => false end)
@@ -168,6 +187,16 @@ Definition doctor_vec (bits : N) (frames : list frame) (v : vst) : vst :=
   let v1 := if bit bits 3 then rebuild_indexes v frames (mem_index v) [] else v in
   (* apply_pending_rebuilds *)
   if bit bits 2
+  then (* vec_enabled = true; ensure_vec_index(); toc.indexes.vec = None; the loaded index stays *)
+       rebuild_indexes (mkV true (vmem v1) (vdisk v1) (pemb v1)) frames (mem_index v1) []
+  else if bit bits 0 || bit bits 1
+       then rebuild_indexes v1 frames (mem_index v1) []
+       else v1.
+
+(* before 83a83e8: manifest AND index dropped before the rebuild *)
+Definition doctor_vec_unfixed (bits : N) (frames : list frame) (v : vst) : vst :=
+  let v1 := if bit bits 3 then rebuild_indexes v frames (mem_index v) [] else v in
+  if bit bits 2
   then rebuild_indexes (mkV true None (vdisk v1) (pemb v1)) frames None []
   else if bit bits 0 || bit bits 1
        then rebuild_indexes v1 frames (mem_index v1) []
@@ -178,7 +207,7 @@ Definition vtrans (s : store) (op : sop) (i : vinfo) (v : vst) : vst :=
   match op with
   | OPut _ _ nchunks _ auto =>
       let v1 := enable_if (incoming_dimension (info_parent i) (info_chunks i)) v in
-      let v2 := add_pemb v1 (info_parent i :: chunk_embs (info_chunks i) (N.to_nat nchunks)) in
+      let v2 := add_pemb v1 (norm (info_parent i) :: map norm (chunk_embs (info_chunks i) (N.to_nat nchunks))) in
       vauto s_app auto (grow (info_grew i) v2)
   | OUpdate target _ _ auto =>
       if accepted s target then
@@ -187,7 +216,7 @@ Definition vtrans (s : store) (op : sop) (i : vinfo) (v : vst) : vst :=
                    | None => if venabled v then embedding_for (mem_docs v) target else None   (* frame_embedding *)
                    end in
         let v1 := enable_if (incoming_dimension eff None) v in
-        vauto s_app auto (grow (info_grew i) (add_pemb v1 [eff]))
+        vauto s_app auto (grow (info_grew i) (add_pemb v1 [norm eff]))
       else v
   | ODelete target auto =>
       if accepted s target then vauto s_app auto (grow (info_grew i) (add_pemb v [None])) else v
@@ -246,19 +275,3 @@ Fixpoint vrun (st : vstate) (ops : list vop) : vstate * list vout :=
 
 Definition vstate0 : vstate := (store0, vst0).
 
-(* ---- the two lossy situations (known findings F-C14-1, F-C14-2) as predicates on a step ---- *)
-Definition has_emb (l : list (option emb)) : bool := existsb is_some l.
-Definition lossy (st : vstate) (x : vop) : bool :=
-  let '(s, v) := st in
-  match x with
-  | VOp (ODoctor _) i => bit (info_bits i) 2                       (* doctor with rebuild_vec_index *)
-  | VOp (OCrash _) _ => negb (is_some (vdisk v)) && has_emb (pemb v) (* exit without commit before the vec manifest ever reached the file *)
-  | _ => false
-  end.
-
-Fixpoint known_class_from (st : vstate) (ops : list vop) : bool :=
-  match ops with
-  | [] => false
-  | x :: r => lossy st x || known_class_from (fst (vstep st x)) r
-  end.
-Definition known_class (ops : list vop) : bool := known_class_from vstate0 ops.
